@@ -252,6 +252,25 @@ class Fn:
             self._aliases = out
         return self._aliases
 
+    def _pure_lvalue(self, n, modified, depth=0):
+        """an lvalue whose *address* is fixed: a variable, a member of such an lvalue, an element at a side-effect-free
+        index, the target of a side-effect-free pointer expression"""
+        n = self.d(n)
+        if n is None or depth > 20:
+            return False
+        k = n["k"]
+        if k == "var":
+            return True
+        if k == "member":
+            return self._pure_expr(n["a"][0], modified, depth + 1) if n.get("arrow") else self._pure_lvalue(n["a"][0], modified, depth + 1)
+        if k == "index":
+            return self._pure_expr(n["a"][0], modified, depth + 1) and self._pure_expr(n["a"][1], modified, depth + 1)
+        if k == "un" and n["op"] == "deref":
+            return self._pure_expr(n["a"][0], modified, depth + 1)
+        if k == "cast":
+            return self._pure_lvalue(n["a"][0], modified, depth + 1)
+        return False
+
     def _pure_expr(self, n, modified, depth=0):
         """side-effect-free arithmetic over variables that are never re-assigned"""
         n = self.d(n)
@@ -267,7 +286,7 @@ class Fn:
         if k == "index":
             return all(self._pure_expr(a, modified, depth + 1) for a in n["a"])
         if k == "un" and n["op"] == "addr":
-            return self._pure_path(n["a"][0], depth + 1)  # the address of an object does not depend on the object's value
+            return self._pure_lvalue(n["a"][0], modified, depth + 1)  # the address of an object does not depend on the object's value
         if k == "un" and n["op"] in ("deref", "-", "~", "!", "+"):
             return self._pure_expr(n["a"][0], modified, depth + 1)
         if k == "bin" and n["op"] not in ASSIGN_OPS and n["op"] != ",":
